@@ -173,6 +173,16 @@ CHECKS["C11"] = dict(technique=FN, category="model_checking", ref="DESIGN.md sec
           "records and 36 live-kernel records (13 real loopback sockets shared with a child) judged by TLC."),
     note=TB)
 
+CHECKS["C18"] = dict(technique=SM + "; the same transitions also replayed on two live child processes with independent read-back channels; recorded histories judged by TLC", category="model_checking", ref="DESIGN.md section 3 C18",
+    text=("Settings.tla: two processes x nice / ioprio (class, data) / affinity within a cpuset / rlimits with psutil's "
+          "validation rules and the kernel's EINVAL/EPERM rules; statement-shaped allowed outcomes vs implementation-shaped "
+          "algorithm, action properties set-then-get, valid-succeeds, get-reads-kernel, others-unchanged, "
+          "invalid-changes-nothing over the whole finite domains. Six dumped graphs (96k transitions, thorough +288k) are toured on "
+          "simkernel (eligible sets with holes) and on two real children whose settings are read back through psutil and "
+          "through os.getpriority / raw ioprio_get / sched_getaffinity / /proc/<pid>/limits, siblings compared before/after; "
+          "with VERIF_ASAN=1 the live part runs on the ASan/UBSan build. 800-4800 recorded histories judged by TLC."),
+    note=TB + " Live target needs >= 4 CPUs and root; two signed findings (eligible CPUs).")
+
 PENDING = "check under construction in this round (see DESIGN.md section 6 work order)"
 NA = {}
 
